@@ -108,7 +108,17 @@ def run(ctx):
                 lst_res = peel_conv(nxt)
             searched = verdict[1]
             same = apath(lst_res) == apath(searched)
-            if same:
+            # the copy handed to the constructor must not lose elements after the position was taken
+            SHRINK = ("::truncate", "::pop", "::remove", "::swap_remove", "::retain", "::retain_mut", "::drain", "::clear", "::split_off", "::dedup",
+                      "::dedup_by", "::dedup_by_key")
+            shr = [(bb2, callee_name(t2)) for (bb2, t2) in b.calls() if t2["args"] and t2["args"][0]["k"] != "const"
+                   and "Vec<suggestion::Rank>" in t2["args"][0]["place"]["ty"] and t2["args"][0]["place"]["ty"].startswith("&mut")
+                   and any(callee_name(t2).endswith(x) for x in SHRINK) and self_path(b.expr_operand(t2["args"][0])) is None
+                   and bb in b.reachable_from(bb2)]
+            if same and shr:
+                r1.violation(key, "the list is shrunk with %s after the selection was computed as a position in the full list — the index can lie beyond the returned list"
+                             % shr[0][1].split("::")[-1], site_of(b, shr[0][0]))
+            elif same:
                 r1.ok(key, "selection = position(..).unwrap_or_default() in the very list that is returned (%s)" % ", ".join(chain))
             else:
                 r1.violation(key, "selection is a position in %r but the list handed to the constructor is %r" % (searched, lst_res), site_of(b, bb))
